@@ -179,8 +179,8 @@ theorem task_events_bracketed (env : Env) (fuel : Nat) (states : Json) (name fn 
   have h5 : (S "Task" = S "Choice") = False := by decide
   have G := growsAll env fuel
   refine ⟨?_, (taskEv_plain _ _ _).2.2⟩
-  simp only [runState, h, h1, h2, h3, h4, h5, hr, hi, hp, ha, if_false, if_true]
-  generalize hst : st.taskCall (bump st.counts (fn, params)).2 ((fldStr state "Resource").getD []) params
+  simp only [runState, h, h1, h2, h3, h4, h5, hr, hi, hp, St.closeKeep_counts, St.closeKeep_clock, ha, if_false, if_true]
+  generalize hst : (st.closeKeep.request timedOut).taskCall (bump st.counts (fn, params)).2 ((fldStr state "Resource").getD []) params
     (taskEv env.maxData (env.task fn params (bump st.counts (fn, params)).1) timedOut) tEnd = st1
   have hl : st1.log = taskEv env.maxData (env.task fn params (bump st.counts (fn, params)).1) timedOut ::
       .lambdaScheduled params ((fldStr state "Resource").getD []) :: st.log := by rw [← hst]; rfl
@@ -241,7 +241,7 @@ theorem leave_logs_exit_before_successor (env : Env) (fuel : Nat) (states : Json
     ∃ later, (leave env (fuel + 1) states name state raw out ctx retries st).2.log =
       later ++ .exited (stateType state) name out :: st.log := by
   have : ¬ (render out).length > env.maxData := by omega
-  obtain ⟨evs, h⟩ := log_only_grows env fuel states next out ctx 0 (st.exit (stateType state) name out)
+  obtain ⟨evs, h⟩ := log_only_grows env fuel states next out ctx 0 ((st.exit (stateType state) name out).handover next)
   exact ⟨evs, by simpa [leave, hE, hN, this, St.exit] using h⟩
 
 /-- a refused transition / an over-limit terminal output logs no exit by itself: the state is handed to
@@ -265,7 +265,7 @@ theorem failed_state_logs_no_exit (env : Env) (fuel : Nat) (states : Json) (name
     (retries : Nat) (e msg : Str) (st : St)
     (h : decideError ((listOf (fld state "Retry")).map retrierOf) ((listOf (fld state "Catch")).map catcherOf)
       e retries = .uncaught) :
-    (handleErr env (fuel + 1) states name state data ctx retries e msg st).2 = st.fanFailedIf state ∧
+    (handleErr env (fuel + 1) states name state data ctx retries e msg st).2 = (st.fanFailedIf state).failTok ∧
     (isFanOut (stateType state) = false → st.fanFailedIf state = st) ∧
     (isFanOut (stateType state) = true → (st.fanFailedIf state).log = .fanFailed (stateType state) :: st.log) := by
   refine ⟨by simp [handleErr, h], ?_, ?_⟩
@@ -285,7 +285,7 @@ theorem caught_state_logs_exit_with_handed_data (env : Env) (fuel : Nat) (states
       later ++ .exited (stateType state) name data' :: (st.fanFailedIf state).log := by
   have : ¬ env.maxData < (render data').length := by omega
   obtain ⟨evs, hg⟩ := log_only_grows env fuel states next data' ctx 0
-    ((st.fanFailedIf state).exit (stateType state) name data')
+    (((st.fanFailedIf state).exit (stateType state) name data').handover next)
   refine ⟨evs, ?_⟩
   cases hrp : c.resultPath with
   | none => simp only [hrp] at hp; simpa [handleErr, h, hn, hrp, hp, this, St.exit] using hg
